@@ -106,6 +106,44 @@ func execMUS(env Env, t *world.TaskSpec, out *Outcome) {
 	if mus.NbClauses != len(mus.Clauses) {
 		out.fail("C07", "mus-nbclauses", "[%s] result says NbClauses=%d but holds %d clauses", cfg, mus.NbClauses, len(mus.Clauses))
 	}
+	// "the caller's problem is left unchanged": a second extraction on the same value must be as good as the first
+	if t.Route == "" || len(out.Viol) > 0 {
+		return
+	}
+	var mus2 *explain.Problem
+	var err2 error
+	switch t.Route {
+	case "MUS":
+		mus2, err2 = pb.MUS()
+	case "MUSDeletion":
+		mus2, err2 = pb.MUSDeletion()
+	case "MUSInsertion":
+		mus2, err2 = pb.MUSInsertion()
+	case "MUSMaxSat":
+		mus2, err2 = pb.MUSMaxSat()
+	case "UnsatSubset":
+		mus2, err2 = pb.UnsatSubset()
+	default:
+		return
+	}
+	out.probe("mus-second-extraction")
+	cfg2 := fmt.Sprintf("%s then %s on the same problem, n=%d clauses=%v", t.Entry, t.Route, t.N, t.Clauses)
+	if err2 != nil || mus2 == nil {
+		out.fail("C07", "second-extraction-error", "[%s] the second extraction returned error %v", cfg2, err2)
+		return
+	}
+	if !ref.SubMultiset(mus2.Clauses, t.Clauses) {
+		out.fail("C07", "second-extraction-not-submultiset", "[%s] second result %v is not a sub-multiset of the input", cfg2, mus2.Clauses)
+	} else if ref.CNFSat(t.N, mus2.Clauses) {
+		out.fail("C07", "second-extraction-satisfiable", "[%s] second result %v is satisfiable", cfg2, mus2.Clauses)
+	} else if t.Route != "UnsatSubset" && t.Route != "MUSMaxSat" {
+		if msg := ref.JudgeMUS(t.N, t.Clauses, mus2.Clauses); msg != "" {
+			out.fail("C07", "second-extraction-"+strings.SplitN(strings.ReplaceAll(msg, " ", "-"), ":", 2)[0], "[%s] %s; result=%v", cfg2, msg, mus2.Clauses)
+		}
+	}
+	if !sameClauses(pb.Clauses, before) || pb.NbVars != nv || pb.NbClauses != nc {
+		out.fail("C07", "caller-problem-changed", "[%s] the caller's problem was modified by the second extraction", cfg2)
+	}
 }
 
 func clausesOf(p *explain.Problem) [][]int {
